@@ -53,6 +53,7 @@ package opshell
 //@   locals s updateLast
 //@   props C19
 //@   holds Shell.wL
+//@   modifies s.lastPlainWrite
 //@   ghost now time.Time
 //@   ghost nNow int = 0
 //@   ghost nReset int = 0
@@ -63,6 +64,7 @@ package opshell
 //@   on enter time.Timer.Reset(tm, d): assert(tm == s.silenceTimer && nUntil == 1 && d == until && imp(updateLast, nNow == 1 && s.lastPlainWrite == now), "timer_rearmed_for_last_plain_write_plus_pause"); nReset++
 //@   ensures rearmed_once: nReset == 1
 //@   ensures clock_only_on_request: imp(!updateLast, nNow == 0 && s.lastPlainWrite == old(s.lastPlainWrite))
+//@   ensures clock_kept_unless_asked_to_move_it: imp(!updateLast, s.lastPlainWrite == old(s.lastPlainWrite))
 
 // handleOutput: every received line is handled exactly once: plain lines go to
 // writePlain with the identical string, others to Logf through the constant "%s".
